@@ -3,7 +3,7 @@
 import json, os, concurrent.futures
 import coqgen as g
 
-SHARD_BYTES = 900_000   # of generated .v text per shard
+SHARD_BYTES = 700_000   # of generated .v text per shard
 
 
 # ---------------------------------------------------------------- JSON -> Gallina
@@ -118,7 +118,10 @@ def csvv(c):
         return "CsvErr"
     if c["k"] == "panic":
         return "CsvLibPanic"
-    rows = g.lst([g.lst([cell(x) for x in r]) for r in c["rows"]])
+    if "rle" in c:   # consecutive identical rows as (count, row): EngineCorr.rle
+        rows = "(rle %s)" % g.lst(["(%s, %s)" % (g.n_(x["n"]), g.lst([cell(y) for y in x["r"]])) for x in c["rle"]])
+    else:
+        rows = g.lst([g.lst([cell(x) for x in r]) for r in c["rows"]])
     return "(CsvOk {| t_header := %s; t_rows := %s |})" % (g.lst([s(h) for h in c["header"]]), rows)
 
 
@@ -127,6 +130,8 @@ def jsonv(j):
         return "JsonErr"
     if j["k"] == "panic":
         return "JsonLibPanic"
+    if "rle" in j:   # consecutive identical entries as (count, entry): EngineCorr.rle
+        return "(JsonAttrs (rle %s))" % g.lst(["(%s, (%s, %s))" % (g.n_(n), s(k), aval(v)) for n, k, v in j["rle"]])
     return "(JsonAttrs %s)" % attrs(j["l"])
 
 
@@ -225,8 +230,13 @@ def generate(pid, ctx, lines):
     descs = sorted([l for l in lines if l.get("kind") == "desc"], key=lambda d: d["id"])
     convs = [l for l in lines if l.get("kind") == "conv"]
     head = PRELUDE + "".join(desc(d) for d in descs)
+    # the sequences with large bodies are the expensive ones to evaluate (tables of thousands of rows): they are dealt
+    # round-robin onto the shards made of the ordinary sequences, lightest shard first
+    heavy = [c for c in cases if c.get("tag") == "large-body"]
     shards, cur, size = [], [], 0
     for c in cases:
+        if c.get("tag") == "large-body":
+            continue
         t = case(c)
         if cur and size + len(t) > SHARD_BYTES:
             shards.append(cur)
@@ -235,11 +245,18 @@ def generate(pid, ctx, lines):
         size += len(t)
     if cur:
         shards.append(cur)
+    if heavy and not shards:
+        shards.append([])
+    order = sorted(range(len(shards)), key=lambda i: sum(len(t) for _, t in shards[i]))
+    for k, c in enumerate(heavy):
+        shards[order[k % len(order)]].append((c, case(c)))
     jobs = []
     for si, shard in enumerate(shards):
         body = head + "Definition cases : list case := [\n  " + ";\n  ".join(t for _, t in shard) + "\n].\n"
-        body += "Definition M := Eval vm_compute in mismatches cases.\nPrint M.\n"
+        # one evaluation of the cases: D = (case index, first bad step) of every mismatching case, M = its case indices
+        # (EngineCorr: mismatches cs = map fst (diag cs), both are [first_bad c <> None])
         body += "Definition D := Eval vm_compute in diag cases.\nPrint D.\n"
+        body += "Definition M := Eval vm_compute in List.map fst D.\nPrint M.\n"
         jobs.append(("cases_%s_%d" % (pid, si), body, shard))
     scases = [l for l in lines if l.get("kind") == "scase"]
     if scases:
@@ -256,7 +273,7 @@ def generate(pid, ctx, lines):
             fh.write(body)
         return ctx.coqc(path, timeout=1800)
 
-    with concurrent.futures.ThreadPoolExecutor(max_workers=3) as ex:
+    with concurrent.futures.ThreadPoolExecutor(max_workers=8) as ex:
         results = list(ex.map(compile_one, jobs))
     import re
     bad_cases = []
@@ -381,12 +398,25 @@ def run(ctx):
     ctx.coverage["rule"] = (
         "request sequences through the real Mux.ServeHTTP (fresh Mux each): state-aware random walks over all routes and methods "
         "(valid and malformed bodies, texts with %, quotes, CR/LF, non-UTF-8) plus route triples (same prefix, same target action "
-        "set reached by whole-table PUT / per-subcatchment PUTs / encoding PATCH); after EVERY request the six read-only resources "
+        "set reached by whole-table PUT / per-subcatchment PUTs / encoding PATCH), histories of REPLACED solution summaries (one "
+        "engine, several different valid summaries -- other sizes, overlapping / disjoint label sets, same labels with other "
+        "encodings -- with GET /solutions/<label> for labels of the current and of every earlier summary, refused POSTs, PATCH "
+        "{Encoding}, re-POSTed scenario; one fixed history + random ones) and LARGE BODIES on every body-carrying write (POST "
+        "/scenario, POST /solutions, PUT active, PUT subcatchment, PATCH /model): sizes 4 KiB / 64 KiB / 1 MiB each -1, =, +1 and "
+        "'filler ends exactly on the boundary', 2 MiB + 4 KiB, 10 MiB + 1 (thorough: 512 B .. 8 MiB, 32 MiB + 1), built as prefix + "
+        "count x unit + pad + suffix so that the body is valid as a whole and its meaning is decided by the suffix (variants: filler "
+        "rows/entries/comment lines, blank-line or white-space gap after a prefix that parses by itself, one long line, trailing "
+        "filler, malformed tail that must be refused, one long attribute value), delivered in varying chunk sizes (a third of the "
+        "ordinary walks too).  Posted texts are interned tokens (same token <=> same bytes: byte equality of what GET returns is "
+        "decided on tokens, and by the Go-side oracle text-not-verbatim), filler rows/entries are run-length encoded in the views "
+        "(EngineCorr.rle), attribute values over 2 KiB are (length, sha256).  After EVERY request the six read-only resources "
         "and the per-subcatchment resource of every planning unit are fetched and compared with the model's.  evaluations = "
         "requests compared; distinct_nontrivial = distinct abstract requests (method, route, content type, parse-level body view)")
     ctx.assumptions = [
         "the catchment valuation is a function of the action set (C01, another slice): the served decision variables are "
         "compared with a fresh model instance put into the served action set, not recomputed in Coq",
         "parse-level views (TOML decode + interpret + initialise, encoding/csv + caster, encoding/json, route regexps) are "
-        "inputs of the model, computed by the harness with the same library calls on fresh objects",
+        "inputs of the model, computed by the harness with the same library calls on fresh objects ON ALL BYTES SENT (so a handler "
+        "that sees only part of a body disagrees with the model)",
+        "body sizes: nothing above 10 MiB + 1 (quick) / 32 MiB + 1 (thorough) is sent; a size-dependent behaviour beyond that is not explored",
         "the model is written from the engine sources as committed in /repo (fix series proposed_fixes/SERIES-C14C15.txt + CSV cell-text fix b0400cb)"]
